@@ -306,6 +306,42 @@ Definition write_stdout (E : env) (s : state) (ps : list bytes) : state * bool :
       match write_pieces_direct (st_sink s) ps with (k, ok) => (set_out s (st_out s) k, ok) end
   end.
 
+(* io.go writeCSV on p.output: the encoded record of print a1, ..., an in CSV/TSV
+   output mode.  Unless p.output is a *bufio.Writer of at least 4096 bytes (which
+   encoding/csv then writes into directly, piece by piece), the record goes into
+   the interpreter's scratch bufio.Writer (4096 bytes, Reset to this destination
+   on entry), which hands it on with Write: a full scratch buffer when a further
+   byte arrives, the rest in the final Flush before writeCSV returns. *)
+Definition scratch_size : nat := Z.to_nat 4096.
+
+Fixpoint chunks_of (fuel n : nat) (p : bytes) : list bytes :=
+  match fuel with
+  | O => [p]
+  | S f => if (length p <=? n)%nat then [p] else firstn n p :: chunks_of f n (skipn n p)
+  end.
+Definition scratch_chunks (p : bytes) : list bytes := chunks_of (length p) scratch_size p.
+
+(* the Write calls of the scratch writer on a bufio.Writer Output, stopping at the first error *)
+Fixpoint write_chunks_buf (cap : nat) (w : bw) (k : sink) (cs : list bytes) : bw * sink * bool :=
+  match cs with
+  | [] => (w, k, true)
+  | c :: cs' =>
+      match bw_write cap w k c with
+      | (w1, k1, true) => write_chunks_buf cap w1 k1 cs'
+      | r => r
+      end
+  end.
+
+Definition write_stdout_rec (E : env) (s : state) (rec : bytes) : state * bool :=
+  match e_mode E with
+  | Buf cap =>
+      if (cap <? scratch_size)%nat then
+        let s := add_log (touch E s) (EvWrite WStdout rec) in
+        match write_chunks_buf cap (st_out s) (st_sink s) (scratch_chunks rec) with (w, k, ok) => (set_out s w k, ok) end
+      else write_stdout E s [rec]
+  | _ => write_stdout E s [rec]   (* a plain writer or file receives the same bytes in the same order *)
+  end.
+
 (* ---- child output arriving on the shared standard output ---- *)
 (* returns the new state and whether the copy is still healthy *)
 Definition child_out (E : env) (s : state) (cgfail : bool) (data : bytes) : state * bool :=
@@ -502,7 +538,8 @@ Inductive op :=
 | GetlineStdin                            (* getline line   (stdin is empty) *)
 | Exit (code : Z)
 | RuntimeError                            (* any other failing statement, e.g. 1/0 *)
-| AwaitFile (n : name).                   (* do r = (getline line < n) while (r < 0): wait until file n exists *)
+| AwaitFile (n : name)                    (* do r = (getline line < n) while (r < 0): wait until file n exists *)
+| PrintRec (d : dest) (rec : bytes).      (* print a1, ..., an in CSV/TSV output mode: the encoded record, through writeCSV *)
 
 Inductive outcome := Running | Halt (code : Z) | Fail.
 
@@ -600,13 +637,12 @@ Definition getline_file (E : env) (s : state) (n : name) : state * outcome :=
            end
        end.
 
-Definition step (E : env) (s : state) (o : op) : state * outcome :=
-  match o with
-  | Print d ps =>
+(* vm.go Print / Printf: getOutputStream, then the write; [wr] is the write on p.output *)
+Definition step_print (E : env) (s : state) (d : dest) (ps : list bytes) (wr : state -> state * bool) : state * outcome :=
       match get_output_stream E s d with
       | (s1, None) => (s1, Fail)
       | (s1, Some TStdout) =>
-          match write_stdout E s1 ps with
+          match wr s1 with
           | (s2, true) => (s2, Running)
           | (s2, false) => (s2, Fail)
           end
@@ -619,7 +655,11 @@ Definition step (E : env) (s : state) (o : op) : state * outcome :=
               end
           | None => (s1, Fail) (* unreachable: get_output_stream returned an open stream *)
           end
-      end
+      end.
+
+Definition step (E : env) (s : state) (o : op) : state * outcome :=
+  match o with
+  | Print d ps => step_print E s d ps (fun s1 => write_stdout E s1 ps)
   | Close n =>
       match alookup n (st_ins s) with
       | Some i =>
@@ -689,6 +729,7 @@ Definition step (E : env) (s : state) (o : op) : state * outcome :=
       if amem n (st_outs s) then (s, Fail)
       else if negb (amem n (st_ins s)) && negb (amem n (st_fs s)) then (set_unmod s, Running)  (* never returns *)
       else getline_file E (add_synced s n) n
+  | PrintRec d rec => step_print E s d [rec] (fun s1 => write_stdout_rec E s1 rec)
   end.
 
 Inductive result := RStatus (code : Z) | RError.
@@ -708,3 +749,22 @@ Fixpoint exec (E : env) (s : state) (ops : list op) : state * result :=
 
 Definition run (E : env) (s : state) (ops : list op) : state * result :=
   match exec E s ops with (s', r) => (close_all E s', r) end.
+
+(* newexecute.go Execute on a reused Interpreter: resetCore empties the stream
+   tables (and scanners), setExecuteConfig installs the new Output; the file
+   system is what the earlier runs left.  The ghost log and the observations
+   start again. *)
+Definition reset_core (s : state) (limit : option nat) : state :=
+  {| st_out := {| bw_buf := []; bw_err := false |};
+     st_sink := {| sk_data := []; sk_limit := limit |};
+     st_outs := []; st_ins := []; st_fs := st_fs s; st_log := []; st_obs := [];
+     st_overlap := false; st_unmod := st_unmod s; st_synced := [] |}.
+
+Fixpoint run_many (E : env) (s : state) (limit : option nat) (progs : list (list op)) : list (state * result) :=
+  match progs with
+  | [] => []
+  | ops :: rest =>
+      match run E s ops with
+      | (s', r) => (s', r) :: run_many E (reset_core s' limit) limit rest
+      end
+  end.
